@@ -18,7 +18,9 @@ TARGET = os.path.join(WORK, "target")
 JMODEL = os.path.join(LEAN, ".lake/build/bin/jmodel")
 JHARNESS = os.path.join(TARGET, "debug/jharness")
 ALLOWED_AXIOMS = {"propext", "Classical.choice", "Quot.sound"}
-FORBIDDEN = re.compile(r"\b(sorry|admit|native_decide|bv_decide|implemented_by|unsafe)\b|^\s*axiom\s|maxHeartbeats\s+0")
+# `admit` only as a tactic (an identifier such as a structure field named `admit` is fine; the axiom audit
+# is what actually excludes sorryAx)
+FORBIDDEN = re.compile(r"\b(sorry|native_decide|bv_decide|implemented_by|unsafe)\b|(^|\bby\s+|;\s*|<;>\s*|·\s*)admit\b(?!\s*:)|^\s*axiom\s|maxHeartbeats\s+0")
 
 ENV = dict(os.environ)
 ENV["CARGO_TARGET_DIR"] = TARGET
